@@ -262,6 +262,9 @@ func init() {
 						props = append(props, "C01")
 					}
 				}
+				if n == 2 && c == 1 {
+					props = append(props, "C01") // identity of ID-less items on every AddAll body
+				}
 				quick := 2
 				if n == 3 && c >= 2 {
 					quick = 1 // four or more runnable threads: NB2 is the thorough bound
@@ -303,7 +306,7 @@ func init() {
 		kp := kp
 		Register(&Scenario{
 			Name:  name("batch-qclose/%s", kp),
-			Props: []string{"C08", "C10", "C05"},
+			Props: []string{"C08", "C10", "C05", "C17"},
 			Mode:  "NB", Quick: 2, Thorough: 3, Shards: 8,
 			Body: func(h *H) {
 				h.CrashProp = "C08"
